@@ -108,7 +108,18 @@ func Walk(ctx context.Context, fileSystem fs.FS, prefix, delimiter, marker strin
 				skipflag = fs.SkipDir
 			} else {
 				if delimiter == "" {
-					dirobj, err := getObj(path+"/", d)
+					// a directory object is listed (and marked) as "path/"
+					dirpath := path + "/"
+					if !pastMarker {
+						if dirpath == marker {
+							pastMarker = true
+							return skipflag
+						}
+						if dirpath < marker {
+							return skipflag
+						}
+					}
+					dirobj, err := getObj(dirpath, d)
 					if err == ErrSkipObj {
 						return skipflag
 					}
@@ -121,7 +132,7 @@ func Walk(ctx context.Context, fileSystem fs.FS, prefix, delimiter, marker strin
 					}
 					objects = append(objects, dirobj)
 					if (len(objects) + len(cpmap)) == int(max) {
-						newMarker = path
+						newMarker = dirpath
 						pastMax = true
 					}
 
